@@ -6,6 +6,18 @@ HERE = os.path.dirname(os.path.dirname(os.path.abspath(__file__)))
 
 # id -> (level category, technique, level text, level note, design ref)
 CHECKS = {
+ "C16": ("exploration", "exhaustive small-scope enumeration of message shapes and malformed inputs through the real encoders/decoders against structural references",
+         "Every generated node-info / handshake / rotation message shape is encoded and decoded by the real codecs and compared with the format's normalisation; an unknown part is inserted at every part boundary; every truncation, every byte substitution (structural values in quick, all 256 in thorough) and all byte strings up to length 2 (3) go through all three decoders with and without a 64 KiB stale tail, under panic capture and a counting allocator (< 1 MiB per call). Complete enumeration of the stated domains.",
+         "Trusted: the normalisation rule written in the harness from the statement; messages larger than the enumerated shapes are assumed to add nothing structurally new.",
+         "DESIGN.md section 5 C16"),
+ "C17": ("exploration", "exhaustive enumeration of hour stamps, list shapes, passwords, embeddings and age boundaries through the real beacon serializer",
+         "All 65536 hour stamps x 3 lists, 45 list shapes x 64 stamps, a 200-password dictionary, every separator position x 12 embeddings (partial/overlapping markers, several beacons), the ttl/age boundary grid in both wrap-around directions, all ordered pairs of 20 passwords, passwords with overlapping markers searched among 2000, and all short bodies/substitutions for panic freedom - each case an execution of the real encode/decode. The failing inputs of this property are thin slices (1/256 of instants, rare passwords) that only complete enumeration hits with certainty.",
+         "Trusted: SHA-512 masking is not analysed, only exercised. The one-byte integrity seed means substituted bodies may decode to other addresses; only panic freedom is demanded there.",
+         "DESIGN.md section 5 C17"),
+ "C18": ("exploration", "exhaustive enumeration of short byte strings (codec vs big-integer reference), leading-zero seed patterns and a password dictionary through real key generation, configuration and handshakes",
+         "The text codec is compared with a big-integer reference on every byte string up to length 2 (3); seeds with 0..4 leading zero bytes and seeds searched for a zero-leading PUBLIC key are rendered as key generation prints them and then configured as private / private+public / trusted key, each followed by real handshakes in both directions; 3000 (20000) numbered passwords plus a dictionary are derived twice and used in two node instances; all ordered pairs of 12 passwords must not connect. The defect class (1/128 of keys) is hit by enumeration, not luck.",
+         "Trusted: ring's Ed25519/PBKDF2. Random seeds are replaced by structured enumeration. A password and the same password followed by NUL bytes are the same HMAC key by construction of PBKDF2-HMAC and are not treated as 'different passwords'.",
+         "DESIGN.md section 5 C18"),
  "C19": ("exploration", "exhaustive small-scope input enumeration of the real dissectors against a reference dissector",
          "Every byte string of the enumerated structured domain (all lengths 0..=64, all 65536 ethertypes, all 65536 tag-control values, nested tags, all version nibbles x lengths, every address byte) is run through the real Frame::parse / Packet::parse and compared with an independent reference; complete enumeration, no sampling. Right level: the functions are pure and read at most 40 bytes, so the small scope covers every branch and every offset.",
          "Trusted: the reference dissector in the harness (30 lines). Inputs longer than 64 bytes are assumed to behave like their prefix.",
